@@ -166,6 +166,12 @@ func (m *Machine) step(f *frame, in ssa.Instruction) {
 		m.oblige(m.cbool(false), "explicit panic reachable", m.prog.Fset.Position(x.Pos()).String())
 		m.fail("panic")
 	case *ssa.DebugRef:
+	case *ssa.Defer, *ssa.RunDefers:
+		// deferred calls are only modelled in the standard library, where they are recover() guards around allocation
+		// (bytes.growSlice) or unlocks: no-ops for the sequential, panic-free paths this executor follows
+		if f.fn.Pkg == nil || strings.Contains(f.fn.Pkg.Pkg.Path(), ".") {
+			panic(fmt.Sprintf("unsupported instruction %T in %s", in, f.fn))
+		}
 	default:
 		panic(fmt.Sprintf("unsupported instruction %T in %s", in, f.fn))
 	}
@@ -325,6 +331,9 @@ func (m *Machine) doCall(f *frame, x *ssa.Call, depth int) Value {
 		if recv.typ == nil {
 			m.oblige(m.cbool(false), "nil interface method call", m.prog.Fset.Position(x.Pos()).String())
 			m.fail("nil iface")
+		}
+		if _, opaque := recv.v.(OpaqueV); opaque && cc.Method.Name() == "Error" {
+			return StrV{"<error>"} // the text of an opaque error value is not the subject
 		}
 		fn := m.prog.LookupMethod(recv.typ, cc.Method.Pkg(), cc.Method.Name())
 		if fn == nil {
